@@ -38,7 +38,10 @@ ExpectedQuery(o) ==
 FamilyShapes == { <<>>,
                   << [f |-> <<102>>, qs |-> <<>>] >>,
                   << [f |-> <<102>>, qs |-> << <<113, 49>>, <<113, 50>> >>] >>,
-                  << [f |-> <<102>>, qs |-> << <<113>> >>], [f |-> <<103>>, qs |-> <<>>] >> }
+                  << [f |-> <<102>>, qs |-> << <<113>> >>], [f |-> <<103>>, qs |-> <<>>] >>,
+                  (* several families that each name their own qualifiers (lists of different content and length) *)
+                  << [f |-> <<102>>, qs |-> << <<97>> >>], [f |-> <<103>>, qs |-> << <<98>> >>] >>,
+                  << [f |-> <<102>>, qs |-> << <<97>>, <<98>> >>], [f |-> <<103>>, qs |-> << <<99>> >>], [f |-> <<104>>, qs |-> <<>>] >> }
 QueryOptions ==
   [families : FamilyShapes, trFrom : {Absent, 3}, trTo : {Absent, 9}, maxVersions : {1, 5}, storeLimit : {Absent, 7},
    storeOffset : {0, 2}, cacheBlocks : BOOLEAN, priority : {0, 6}, timeline : BOOLEAN,
